@@ -2,7 +2,14 @@
    Executable definitions only; no proofs.
 
    What is transcribed (liquid/context.py, output.py, template.py, ast.py, parser.py and the tags
-   for, tablerow, include, render, capture, ifchanged, assign, macro/call), Mode.STRICT:
+   for, tablerow, include, render, capture, ifchanged, assign, macro/call), in all three modes:
+
+   * Mode: an error (LErr e s) carries the state at the point where it was raised, after the context managers
+     it passed have unwound (buffers of capture/ifchanged/blank blocks dropped, copied contexts dropped, writes
+     already made kept).  BoundTemplate.render_with_context handles it PER TOP-LEVEL NODE of the template it
+     renders (main template and every included / rendered partial): in STRICT mode it is re-raised, in WARN and
+     LAX mode it is dropped and the next node is rendered from that state.  Parse errors are not render errors:
+     a block nesting error in WARN/LAX mode (parser recovery) is outside the model and yields [LFuel].
 
    * RenderContext.raise_for_loop_limit / loop / copy(carry_loop_iterations=True): the loop stack, the
      loop-iteration carry, and (REPAIRED code) the scaling of the carry by tablerow / include-with-array /
@@ -50,8 +57,13 @@ Definition lexn_eqb (a b : lexn) : bool :=
   | _, _ => false
   end.
 
-Inductive lres (A : Type) := LOk (a : A) | LErr (e : lexn) | LFuel.
-Arguments LOk {A} a. Arguments LErr {A} e. Arguments LFuel {A}.
+Inductive lres (A : Type) := LOk (a : A) | LErr (e : lexn) (a : A) | LFuel.
+Arguments LOk {A} a. Arguments LErr {A} e a. Arguments LFuel {A}.
+
+Inductive mode := Strict | Warn | Lax.       (* Environment(tolerance=...) *)
+Definition tolerant (m : mode) : bool := match m with Strict => false | _ => true end.
+Definition mode_eqb (a b : mode) : bool :=
+  match a, b with Strict, Strict | Warn, Warn | Lax, Lax => true | _, _ => false end.
 
 (* ------------------------------------------------------------------ programs *)
 (* Partials and macro bodies are inlined in the tree: the harness gives every Include/Render body its own
@@ -110,12 +122,15 @@ Record limits := { l_loop : option N;   (* loop_iteration_limit *)
 
 Record variant := { v_carry : bool;    (* true: tablerow/include-array/render-for scale the carry (repaired) *)
                     v_zero : bool;     (* true: a loop / namespace limit of 0 is a limit (repaired) *)
-                    v_item : bool }.   (* render-for: true = a fresh copied context per item (the code after
+                    v_item : bool;
+                    v_rollback : bool }.   (* render-for: true = a fresh copied context per item (the code after
                                           C15-render-for-items-share-one-context.patch); false = ONE copied context
                                           reused for all items (locals persist from item to item).
                                           Every theorem is proved for both. *)
-Definition repaired : variant := {| v_carry := true; v_zero := true; v_item := true |}.
-Definition unrepaired : variant := {| v_carry := false; v_zero := false; v_item := true |}.
+(* v_rollback: true = RenderContext.assign removes the value that breaks the namespace limit before raising
+   (repaired, C07-namespace-rollback.patch); false = the value stays (visible in WARN/LAX mode only). *)
+Definition repaired : variant := {| v_carry := true; v_zero := true; v_item := true; v_rollback := true |}.
+Definition unrepaired : variant := {| v_carry := false; v_zero := false; v_item := true; v_rollback := false |}.
 
 (* ------------------------------------------------------------------ UTF-8 *)
 Definition utf8_len (c : N) : Z :=
@@ -134,17 +149,19 @@ Definition buf_text (b : buf) : str := match b with BNull => [] | BLim _ _ rt =>
 Definition child_of (b : buf) : buf :=
   match b with BNull => BLim 0 0 [] | BLim _ size _ => BLim size 0 [] end.
 
-Definition buf_write (lo : option Z) (b : buf) (t : str) : option buf :=
+(* LimitedStringIO.write: size is incremented, THEN compared, and only then is the text written: a refused
+   write leaves the size incremented and the text unchanged.  -> (written?, buffer afterwards) *)
+Definition buf_write (lo : option Z) (b : buf) (t : str) : bool * buf :=
   match t with
-  | [] => Some b
+  | [] => (true, b)
   | _ =>
       match b with
-      | BNull => Some BNull
+      | BNull => (true, BNull)
       | BLim base size rt =>
           let size' := size + utf8_bytes t in
           match lo with
-          | Some L => if size' >? L - base then None else Some (BLim base size' (rev_append t rt))
-          | None => Some (BLim base size' (rev_append t rt))
+          | Some L => if size' >? L - base then (false, BLim base size' rt) else (true, BLim base size' (rev_append t rt))
+          | None => (true, BLim base size' (rev_append t rt))
           end
       end
   end.
@@ -211,13 +228,19 @@ Definition tr_close : str := lit "</tr>" ++ [10%N].
 
 (* ------------------------------------------------------------------ the interpreter *)
 Section Exec.
-  Variables (v : variant) (lim : limits).
+  Variables (v : variant) (md : mode) (lim : limits).
 
   Definition M := st -> lres st.
   Definition ret : M := fun s => LOk s.
   Definition seq (a b : M) : M :=
-    fun s => match a s with LOk s' => b s' | LErr e => LErr e | LFuel => LFuel end.
-  Definition guard (b : bool) (e : lexn) : M := fun s => if b then LErr e else LOk s.
+    fun s => match a s with LOk s' => b s' | LErr e s' => LErr e s' | LFuel => LFuel end.
+  Definition guard (b : bool) (e : lexn) : M := fun s => if b then LErr e s else LOk s.
+  (* the handler of render_with_context around ONE top-level node *)
+  Definition handle (m : M) : M :=
+    fun s => match m s with
+             | LErr e s' => if tolerant md then LOk s' else LErr e s'
+             | r => r
+             end.
   Fixpoint iter (k : Z) (n : nat) (body : Z -> M) : M :=
     match n with O => ret | S n' => seq (body k) (iter (k + 1) n' body) end.
 
@@ -237,8 +260,13 @@ Section Exec.
   Definition copy_exceeded (f : frame) : bool := f_copy_depth f >? l_depth lim.  (* copy *)
   Definition nest_exceeded (body : list node) : bool := tdepth_list body >? l_nest lim.
 
+  (* loading (= parsing) a template: BlockNestingError in STRICT mode; parser recovery otherwise (not modelled) *)
+  Definition nest_guard (body : list node) : M :=
+    fun s => if nest_exceeded body then (if tolerant md then LFuel else LErr XNesting s) else LOk s.
+
   Definition m_write (t : str) : M :=
-    fun s => match buf_write (l_out lim) (s_buf s) t with Some b => LOk (set_buf s b) | None => LErr XOutput end.
+    fun s => let '(ok, b) := buf_write (l_out lim) (s_buf s) t in
+             if ok then LOk (set_buf s b) else LErr XOutput (set_buf s b).
 
   Definition m_leaf (tp : N) : M :=
     fun s => LOk {| s_locals := s_locals s; s_ifch := s_ifch s; s_buf := s_buf s; s_sizes := s_sizes s;
@@ -246,20 +274,22 @@ Section Exec.
 
   (* BlockNode.render_to_output of a blank block: everything goes to a NullIO *)
   Definition in_null (m : M) : M :=
-    fun s => match m (set_buf s BNull) with LOk s' => LOk (set_buf s' (s_buf s)) | LErr e => LErr e | LFuel => LFuel end.
+    fun s => match m (set_buf s BNull) with
+             | LOk s' => LOk (set_buf s' (s_buf s)) | LErr e s' => LErr e (set_buf s' (s_buf s)) | LFuel => LFuel
+             end.
 
   (* buf = context.get_buffer(buffer); render into buf; continue with buf.getvalue() and the old buffer *)
   Definition in_child (m : M) (k : str -> M) : M :=
     fun s => match m (set_buf s (child_of (s_buf s))) with
              | LOk s' => k (buf_text (s_buf s')) (set_buf s' (s_buf s))
-             | LErr e => LErr e | LFuel => LFuel
+             | LErr e s' => LErr e (set_buf s' (s_buf s)) | LFuel => LFuel
              end.
 
   (* a copied context has its own locals and tag_namespace; the caller's are untouched *)
   Definition in_ctx (m : M) : M :=
     fun s => match m (set_mut s [] []) with
              | LOk s' => LOk (set_mut s' (s_locals s) (s_ifch s))
-             | LErr e => LErr e | LFuel => LFuel
+             | LErr e s' => LErr e (set_mut s' (s_locals s) (s_ifch s)) | LFuel => LFuel
              end.
 
   (* RenderContext.assign *)
@@ -272,7 +302,14 @@ Section Exec.
                  let s' := {| s_locals := l'; s_ifch := s_ifch s; s_buf := s_buf s; s_sizes := rest; s_leaf := s_leaf s;
                               s_nslog := (tot + f_anc f, tot + f_ns_carry f) :: s_nslog s |} in
                  match ns_limit with
-                 | Some L => if tot + f_ns_carry f >? L then LErr XNamespace else LOk s'
+                 | Some L =>
+                     if tot + f_ns_carry f >? L
+                     then LErr XNamespace
+                            (if v_rollback v
+                             then {| s_locals := s_locals s; s_ifch := s_ifch s; s_buf := s_buf s; s_sizes := rest;
+                                     s_leaf := s_leaf s; s_nslog := s_nslog s |}
+                             else s')
+                     else LOk s'
                  | None => LOk s'
                  end
              end.
@@ -287,9 +324,11 @@ Section Exec.
       match l with [] => ret | x :: r => seq (exec x f) (exec_list r f) end in
     let block (body : list node) (f : frame) : M :=
       if blank_list body then in_null (exec_list body f) else exec_list body f in
-    (* BoundTemplate.render_with_context *)
+    (* BoundTemplate.render_with_context: extend, then every top-level node under the mode's handler *)
+    let fix run_nodes (l : list node) (f : frame) {struct l} : M :=
+      match l with [] => ret | x :: r => seq (handle (exec x f)) (run_nodes r f) end in
     let partial (body : list node) (f : frame) : M :=
-      seq (guard (depth_exceeded f) XDepth) (exec_list body (f_ext f)) in
+      seq (guard (depth_exceeded f) XDepth) (run_nodes body (f_ext f)) in
     match nd with
     | Text t => seq (m_leaf (f_tp f)) (m_write t)
     | Echo x => fun s => m_write (lget x (s_locals s)) s
@@ -309,21 +348,21 @@ Section Exec.
             (m_write tr_close))))
     | Include body =>
         seq (guard (f_no_include f) XDisabled)
-       (seq (guard (nest_exceeded body) XNesting)
+       (seq (nest_guard body)
        (seq (guard (depth_exceeded f) XDepth)
             (partial body (f_ext f))))
     | IncludeArr n body =>
         seq (guard (f_no_include f) XDisabled)
-       (seq (guard (nest_exceeded body) XNesting)
+       (seq (nest_guard body)
        (seq (guard (depth_exceeded f) XDepth)
        (seq (guard (loop_exceeded (f_ext f) n) XLoop)
             (iter 1 (N.to_nat n) (fun _ => partial body (f_scale v (f_ext f) n))))))
     | Render body =>
-        seq (guard (nest_exceeded body) XNesting)
+        seq (nest_guard body)
        (seq (guard (copy_exceeded f) XDepth)
             (fun s => in_ctx (partial body (f_copy f (sum_sizes (s_locals s)))) s))
     | RenderFor n body =>
-        seq (guard (nest_exceeded body) XNesting)
+        seq (nest_guard body)
        (seq (guard (copy_exceeded f) XDepth)
             (fun s => let fc := f_copy f (sum_sizes (s_locals s)) in
                       seq (guard (loop_exceeded fc n) XLoop)
@@ -339,12 +378,19 @@ Section Exec.
     match l with [] => ret | x :: r => seq (exec x f) (exec_list r f) end.
   Definition block (body : list node) (f : frame) : M :=
     if blank_list body then in_null (exec_list body f) else exec_list body f.
+  Fixpoint run_nodes (l : list node) (f : frame) : M :=
+    match l with [] => ret | x :: r => seq (handle (exec x f)) (run_nodes r f) end.
   Definition partial (body : list node) (f : frame) : M :=
-    seq (guard (depth_exceeded f) XDepth) (exec_list body (f_ext f)).
+    seq (guard (depth_exceeded f) XDepth) (run_nodes body (f_ext f)).
 
   (* Environment.from_string (parse: block nesting) then BoundTemplate.render *)
+  (* Environment.from_string (parse: block nesting) then BoundTemplate.render; an error of the outermost
+     extend is outside every per-node handler and escapes in every mode *)
   Definition run_prog (main : list node) (sizes : list Z) : lres st :=
-    if nest_exceeded main then LErr XNesting else partial main frame0 (st0 sizes).
+    match nest_guard main (st0 sizes) with
+    | LOk s => partial main frame0 s
+    | r => r
+    end.
 End Exec.
 
 (* ------------------------------------------------------------------ observations *)
@@ -353,7 +399,7 @@ Inductive obs := OOut (out : str) (ns : list Z) | OErr (e : lexn) | OFuel.
 Definition observe (lim : limits) (r : lres st) : obs :=
   match r with
   | LOk s => OOut (buf_text (s_buf s)) (match l_ns lim with Some _ => rev (map snd (s_nslog s)) | None => [] end)
-  | LErr e => OErr e
+  | LErr e _ => OErr e
   | LFuel => OFuel
   end.
 
@@ -365,11 +411,11 @@ Definition obs_eqb (a b : obs) : bool :=
   | _, _ => false
   end.
 
-Record case := { c_lim : limits; c_main : list node; c_sizes : list Z }.
+Record case := { c_mode : mode; c_lim : limits; c_main : list node; c_sizes : list Z }.
 
 (* what the correspondence run evaluates: the REPAIRED code *)
-Definition run_case (c : case) : obs := observe (c_lim c) (run_prog repaired (c_lim c) (c_main c) (c_sizes c)).
-Definition run_case_unrepaired (c : case) : obs := observe (c_lim c) (run_prog unrepaired (c_lim c) (c_main c) (c_sizes c)).
+Definition run_case (c : case) : obs := observe (c_lim c) (run_prog repaired (c_mode c) (c_lim c) (c_main c) (c_sizes c)).
+Definition run_case_unrepaired (c : case) : obs := observe (c_lim c) (run_prog unrepaired (c_mode c) (c_lim c) (c_main c) (c_sizes c)).
 
 (* the correspondence run compares a digest of the output (length, UTF-8 bytes, polynomial hash): long expected
    outputs as Gallina list literals are slow to type-check *)
@@ -391,9 +437,9 @@ Definition dobs_eqb (a b : dobs) : bool :=
 Definition run_digest (c : case) : dobs := digest (run_case c).
 
 (* one nest under several configurations (the harness groups its cases by nest: the nest term is elaborated once) *)
-Record sweep := { sw_main : list node; sw_runs : list (limits * list Z) }.
+Record sweep := { sw_main : list node; sw_runs : list (mode * (limits * list Z)) }.
 Definition run_sweep (w : sweep) : list dobs :=
-  map (fun p => run_digest {| c_lim := fst p; c_main := sw_main w; c_sizes := snd p |}) (sw_runs w).
+  map (fun p => run_digest {| c_mode := fst p; c_lim := fst (snd p); c_main := sw_main w; c_sizes := snd (snd p) |}) (sw_runs w).
 
 (* compact constructors for the harness's case files (elaborating long literal terms dominates the cost of the
    correspondence run): one limit configured, the others at their defaults (None / 30 / 30) *)
@@ -403,8 +449,11 @@ Definition ROut (x : Z) (z : list Z) : limits * list Z := (Build_limits None (So
 Definition RNs (x : Z) (z : list Z) : limits * list Z := (Build_limits None None (Some x) 30 30, z).
 Definition RDepth (x : Z) (z : list Z) : limits * list Z := (Build_limits None None None x 30, z).
 Definition RNest (x : Z) (z : list Z) : limits * list Z := (Build_limits None None None 30 x, z).
+Definition InS (r : limits * list Z) : mode * (limits * list Z) := (Strict, r).
+Definition InW (r : limits * list Z) : mode * (limits * list Z) := (Warn, r).
+Definition InL (r : limits * list Z) : mode * (limits * list Z) := (Lax, r).
 Definition D (l h : N) : dobs := DOut l (Z.of_N l) h [].     (* ASCII-only output, no namespace log *)
 
 (* number of leaf executions and the largest true product among them (C06 reading aids) *)
 Definition leaf_log (v : variant) (c : case) : option (list N) :=
-  match run_prog v (c_lim c) (c_main c) (c_sizes c) with LOk s => Some (s_leaf s) | _ => None end.
+  match run_prog v (c_mode c) (c_lim c) (c_main c) (c_sizes c) with LOk s => Some (s_leaf s) | _ => None end.
